@@ -186,7 +186,27 @@ def gen(ctx):
     return cases
 
 
+def rust_order(ctx):
+    """`parallel_map` driven directly (the cargo harness of C15): whatever the relative speeds of the workers — one straggler among fast
+    items, item-dependent delays, a stalling consumer — a full pass returns the results in input order."""
+    from harness.checks import c15
+    lines, _, rc, tail = c15.cargo_harness(ctx, long_stall_ms=1)
+    n = 0
+    for l in lines:
+        if l["kind"] not in ("full", "stall"):
+            continue
+        n += 1
+        if l["out"] != [x * 10 for x in range(l["n"])]:
+            ctx.report({"kind": "rust-order", "stage": "parallel_map", "straggler": "straggler" in l},
+                       f"parallel_map(n={l['n']}, threads={l['threads']}" + (f", item {l['straggler']} slow" if "straggler" in l else "") + f") returned {str(l['out'])[:120]} instead of the inputs' order", {"case": l})
+            break
+    if not n:
+        raise RuntimeError(f"cargo harness produced nothing (rc={rc}): {tail[-300:]}")
+    return n
+
+
 def run(ctx):
+    ctx.cov["rust_parallel_map_order_cases"] = rust_order(ctx)
     cases = gen(ctx)
     recs = []
     for i in range(0, len(cases), 6):
